@@ -496,5 +496,5 @@ func fixedC20(t *testing.T, emit func(sc interface{}, o *Outcome)) {
 }
 
 func TestC20(t *testing.T) {
-	drive(t, &PropDef{ID: "C20", Gen: genC20, Decode: decodeInto[C20Scenario], Run: runC20, Checks: 40, Fixed: fixedC20, FixedAllWorkers: true})
+	drive(t, &PropDef{ID: "C20", Gen: genC20, Decode: decodeInto[C20Scenario], Run: runC20, Checks: 40, Fixed: fixedC20, FixedAllWorkers: true, CrashCapture: true})
 }
